@@ -176,6 +176,8 @@ class GoCheck:
         self.t0 = time.time()
         self.scratch = scratch_dir(prop)
         self.known, self.fixed = load_known(prop)
+        for old in glob.glob(os.path.join(VERIF, "replays", prop, "*.json")):
+            os.remove(old)  # replays always belong to the latest run
         self.tasks = []          # task results
         self.violations = []     # (key, replay path)
         self.known_hits = []     # (key, text)
@@ -379,7 +381,7 @@ class GoCheck:
         for n in self.notes[:40]:
             print(n)
         for k, txt in self.known_hits:
-            print("KNOWN-FINDING: property=%s %s :: %s" % (self.prop, k, txt))
+            print("KNOWN-FINDING: property=%s %s :: %s" % (self.prop, k, txt[:200]))
         for k, rp in self.violations:
             print("VIOLATION property=%s replay=%s   (%s)" % (self.prop, rp, k))
         print("%s tier=%s tasks=%d paths=%d queries=%d (unsat %d, sat %d, unknown %d) solver=%.1fs validated=%d cex_replayed=%d wall=%.1fs" % (
